@@ -32,7 +32,7 @@ import pgradd.ThermoChem                                            # noqa: E402
 from pgradd.GroupAdd.Library import GroupLibrary                    # noqa: E402
 
 TEMPS = {1: 298.15, 2: 500.0, 3: 900.0}
-MOLS = {'BensonGA': ['CC', 'CCCCCC', 'CCO', 'C=CC', 'c1ccccc1'],
+MOLS = {'BensonGA': ['CC', 'CCCCCC', 'CCO', 'C=CC', 'c1ccccc1', 'C/C=C\\C', 'C/C=C/C', 'CC=CC'],
         'GRWSurface2018': ['C([Pt])C', 'CC', 'OC([Pt])C'],
         'SalciccioliGA2012': ['C([Pt])C', 'CC([Pt])O'],
         'X1': ['C([Ru])C', 'CC', 'C([Ru])([Ru])C'],
@@ -40,7 +40,8 @@ MOLS = {'BensonGA': ['CC', 'CCCCCC', 'CCO', 'C=CC', 'c1ccccc1'],
 GROUPS = {'BensonGA': ['C(C)(H)3', 'C(C)2(H)2'], 'GRWSurface2018': ['C(C)(H)3'],
           'SalciccioliGA2012': ['C(C)(H)3'], 'X1': ['C(C)(H)3', 'Zz(Q)2'], 'X2': ['C(C)(H)3', 'Zz(Q)2'],
           'X3': ['Zz(Q)2', 'Yy(Q)'], 'GuSolventGA2017Aq': ['C(C)(H)3'], 'GuSolventGA2017Vac': ['C(C)(H)3']}
-GET = {'Cp': 'get_CpoR', 'H': 'get_HoRT', 'S': 'get_SoR', 'G': 'get_GoRT'}
+GET = {'Cp': 'get_CpoR', 'H': 'get_HoRT', 'S': 'get_SoR', 'G': 'get_GoRT',
+       'HSE': 'get_HoRT_SE', 'SSE': 'get_SoR_SE', 'CpSE': 'get_CpoR_SE'}
 
 PURE = r'''
 import sys, json, io, contextlib, hashlib
@@ -76,7 +77,8 @@ with contextlib.redirect_stdout(buf):
             ow = False
         return lib
     kind = key[0]
-    GET = {'Cp': 'get_CpoR', 'H': 'get_HoRT', 'S': 'get_SoR', 'G': 'get_GoRT'}
+    GET = {'Cp': 'get_CpoR', 'H': 'get_HoRT', 'S': 'get_SoR', 'G': 'get_GoRT',
+       'HSE': 'get_HoRT_SE', 'SSE': 'get_SoR_SE', 'CpSE': 'get_CpoR_SE'}
     if kind == 'contents':
         out = res(lambda: digest(load(key[1])))
     elif kind == 'descriptors':
@@ -222,7 +224,7 @@ def make_history(rng_, n, libs):
                 ests.append(1)
         elif r < .9:
             if ests:
-                pp = rng_.choice(['H', 'S', 'G', 'Cp', 'S', 'G'])
+                pp = rng_.choice(['H', 'S', 'G', 'Cp', 'S', 'G', 'HSE', 'SSE', 'CpSE'])
                 evs.append({'op': 'eval', 'e': rng_.randint(1, len(ests)), 'p': pp,
                             't': rng_.choice([1, 2, 3]),
                             'sel': pp in ('S', 'G') and rng_.random() < .5})
@@ -253,6 +255,24 @@ def systematic(libs):
                        {'op': 'load', 'h': 2, 'L': L}, {'op': 'estimate', 'h': 2, 'd': 2},
                        {'op': 'eval', 'e': 3, 'p': 'H', 't': 3, 'sel': False},
                        {'op': 'eval', 'e': 3, 'p': 'S', 't': 3, 'sel': sel}])
+    # stereo variants of one constitution decomposed by one library object, in both orders
+    if 'BensonGA' in libs:
+        for order in (['C/C=C\\C', 'C/C=C/C', 'CC=CC'], ['CC=CC', 'C/C=C/C', 'C/C=C\\C']):
+            h = [{'op': 'load', 'h': 1, 'L': 'BensonGA'}]
+            for k, m in enumerate(order):
+                h += [{'op': 'decompose', 'h': 1, 'm': m}, {'op': 'estimate', 'h': 1, 'd': k + 1},
+                      {'op': 'eval', 'e': k + 1, 'p': 'H', 't': 1, 'sel': False}]
+            hs.append(h)
+    # standard errors of an earlier estimate after a later one was made from the same library
+    for L in libs:
+        if L in ('GRWSurface2018', 'GuSolventGA2017Vac') and L in MOLS:
+            hs.append([{'op': 'load', 'h': 1, 'L': L}, {'op': 'decompose', 'h': 1, 'm': MOLS[L][0]},
+                       {'op': 'estimate', 'h': 1, 'd': 1}, {'op': 'eval', 'e': 1, 'p': 'HSE', 't': 2, 'sel': False},
+                       {'op': 'decompose', 'h': 1, 'm': MOLS[L][2]}, {'op': 'estimate', 'h': 1, 'd': 2},
+                       {'op': 'eval', 'e': 1, 'p': 'HSE', 't': 2, 'sel': False},
+                       {'op': 'eval', 'e': 1, 'p': 'CpSE', 't': 1, 'sel': False},
+                       {'op': 'eval', 'e': 2, 'p': 'SSE', 't': 2, 'sel': False},
+                       {'op': 'eval', 'e': 1, 'p': 'SSE', 't': 2, 'sel': False}])
     # one estimate asked the same thing with and without the elemental reference, in both orders
     for L in libs:
         if L not in MOLS:
